@@ -137,16 +137,69 @@ def r2_chain(chk, F):
         chk.ob(rule, "parse_duration", "compose_f64(1,decomposed[0..6]-in-order)", ok, "argument flow", detail=idxs)
     else:
         chk.ob(rule, "parse_duration", "compose_f64(1,decomposed[0..6]-in-order)", False, detail="%d calls" % len(calls))
-    # compose_f64: parameter k goes through the TimeUnits method of unit k
-    seq = []
-    cdefs = cfg.unique_defs(cf)
-    for bi, t in cfg.calls(cf):
-        nm = cfg.callee_name(t["f"]).split("::")[-1]
-        if nm in METHODS:
-            a = cfg.resolve(cf, t["args"][0], cdefs)
-            seq.append((nm, a[1] if a[0] == "arg" else None))
-    ok = seq == [(m, k + 2) for k, m in enumerate(METHODS)]
-    chk.ob(rule, "Duration::compose_f64", "param-k-through-TimeUnits-method-k", ok, "argument flow", detail=None if ok else seq)
+    # compose_f64: parameter k is converted with unit k and the seven conversions are summed (negated for a negative sign)
+    ok, detail = compose_f64_semantics(F)
+    chk.ob(rule, "Duration::compose_f64", "param-k-through-TimeUnits-method-k", ok, "interpreted: result == +/- sum of (param k x unit k)", detail=None if ok else detail)
+
+
+_UNIT_OF_PARAM = ["Day", "Hour", "Minute", "Second", "Millisecond", "Microsecond", "Nanosecond"]
+
+
+def compose_f64_semantics(F):
+    """Duration::compose_f64 interpreted with Unit x f64 uninterpreted (recorded) and Duration +, neg exact: on every path the result
+    is the sum of exactly seven conversions, parameter k (days .. nanoseconds) with unit k, each used once, negated iff sign < 0.
+    How the sum is written (a chain of +, a fold over an array, a helper) is not prescribed.  -> (ok, detail)"""
+    from ..epochalg import EpochAlg, scale_name
+    from ..sym import Flt as _Flt
+    eng, D = ctx(F)
+    A = EpochAlg(F, eng, D)
+    cf = F.find1(self_ty="Duration", name="compose_f64", trait="")
+    um = F.find1(self_ty="Unit", name="mul", trait_ref="Mul<f64>")
+    A.install(duration_algebra=True, opaque_conv=True)
+    eng.hooks_by_id[um["id"]] = rec_hook(D, "unit*f64")
+    try:
+        finals, args = D.run(cf, interior=True)
+    finally:
+        A.uninstall()
+        eng.hooks_by_id = {}
+    problems = []
+    nret = 0
+    signs = set()
+    for st in finals:
+        if st.end != "return":
+            problems.append("path ends in %s" % st.end)
+            continue
+        nret += 1
+        rm = recs(st, "unit*f64")
+        used = {}
+        total = Lin.const(0)
+        for a, res in rm:
+            u = scale_name(eng, st, a[0])
+            val = a[1]
+            k = next((i_ for i_ in range(7) if val is args[1 + i_] or (isinstance(val, _Flt) and isinstance(args[1 + i_], _Flt) and val.t == args[1 + i_].t)), None)
+            if k is None or u != _UNIT_OF_PARAM[k] or k in used:
+                problems.append("conversion %s x %r is not parameter k with unit k (or used twice)" % (u, val))
+                continue
+            used[k] = res
+            total = total + D.total(res)
+        if sorted(used) != list(range(7)):
+            problems.append("parameters converted: %s" % sorted(used))
+            continue
+        TR = D.total(st.ret)
+        sg = args[0].lin
+        neg_path = not D.feasible(st, [(-sg, "<=")])       # sign < 0 on this path
+        pos_path = not D.feasible(st, [(sg + 1, "<=")])    # sign >= 0 on this path
+        if not (neg_path or pos_path):
+            problems.append("sign undecided on a path")
+            continue
+        signs.add(neg_path)
+        st2 = st.clone()
+        D.close(st2, [TR, total])
+        want = -total if neg_path else total
+        if TR is None or not D.implies_eq(st2, TR, want):
+            problems.append("result is %r, expected %s%r" % (TR, "-" if neg_path else "", total))
+    ok = not problems and nret >= 2 and signs == {True, False}
+    return ok, sorted(set(problems))[:4] or {"return_paths": nret}
 
 
 def r3_display(chk, F):
